@@ -53,6 +53,7 @@ type ioDelegate struct {
 	outfile *os.File
 	cache   *cache.File
 	tmpin   bool
+	commit  bool
 }
 
 func newIODelegate(inpath, outpath string) (*ioDelegate, error) {
@@ -71,7 +72,7 @@ func newIODelegate(inpath, outpath string) (*ioDelegate, error) {
 		}
 	}
 
-	return &ioDelegate{input, output, nil, false}, nil
+	return &ioDelegate{input, output, nil, false, false}, nil
 }
 
 func (d *ioDelegate) Read(p []byte) (int, error) {
@@ -166,11 +167,17 @@ func (d *ioDelegate) Close() error {
 	defer d.infile.Close()
 	defer d.outfile.Close()
 
+	// Only the output of a run that completed may be replayed later.
 	if d.cache != nil {
-		if err := d.cache.Close(); err != nil {
+		if err := d.cache.Close(); err != nil || !d.commit {
 			os.Remove(d.cache.Name())
 		}
 	}
 
 	return nil
+}
+
+// Commit marks the run as successful so that Close keeps the cache entry.
+func (d *ioDelegate) Commit() {
+	d.commit = true
 }
